@@ -659,7 +659,7 @@ func gen(c *lib.Ctx) {
 		}
 	}
 	c.Comment("history c08quic: byte mutations of valid packets")
-	n := c.Scale(150, 4000)
+	n := c.Scale(600, 30000)
 	for i := 0; i < n; i++ {
 		side := []string{"srv", "cli"}[i%2]
 		q := base(side)
